@@ -21,8 +21,9 @@ import (
 // Orchestrator: cuts [0,N) into batches, one child process per batch.
 // ---------------------------------------------------------------------------
 
-const batchWatchdog = 600 * time.Second // generous; converts to "inconclusive", never a verdict by itself
-const singleWatchdog = 120 * time.Second
+const batchWatchdog = 300 * time.Second // generous (a batch needs < 2 s); converts to "inconclusive", never a verdict by itself
+const singleWatchdog = 60 * time.Second  // >= 10^5 x the cost of one case
+const maxDeaths = 3                      // after this many confirmed child deaths/hangs no further batches are started
 
 func verifRoot() string {
 	if r := os.Getenv("VERIF_ROOT"); r != "" {
@@ -45,6 +46,7 @@ type runResult struct {
 	inconcl    []string
 	raceReport int
 	raceCases  int64
+	aborted    bool // stopped early after maxDeaths confirmed child deaths
 }
 
 func envSeed() int64 {
@@ -103,6 +105,15 @@ func runProperty(id, tier string) int {
 			defer func() { <-sem }()
 			lo := j.lo
 			for lo < j.hi {
+				mu.Lock()
+				stop := len(res.deaths) >= maxDeaths
+				mu.Unlock()
+				if stop {
+					mu.Lock()
+					res.aborted = true
+					mu.Unlock()
+					return
+				}
 				out, culprit, why := spawnWorker(exe, scratch, fmt.Sprintf("b%d-%d", ji, lo), id, tier, seed, lo, j.hi, batchWatchdog)
 				mu.Lock()
 				if out != nil {
@@ -458,6 +469,9 @@ func conclude(root string, p *Property, tier string, seed int64, res *runResult,
 	}
 	if broken == "" && exit == 0 && distinct < p.MinNontrivial {
 		broken = fmt.Sprintf("only %d distinct non-trivial cases observed (< floor %d): the workload no longer reaches the property", distinct, p.MinNontrivial)
+	}
+	if broken == "" && res.aborted {
+		broken = fmt.Sprintf("stopped early after %d confirmed child deaths/hangs (%d of %d cases evaluated)", len(res.deaths), a.Evaluations, p.Cases(tier))
 	}
 	if broken == "" && a.Evaluations != p.Cases(tier) {
 		broken = fmt.Sprintf("evaluated %d of %d cases", a.Evaluations, p.Cases(tier))
